@@ -20,6 +20,11 @@ try:
     mpf = mpmath.mpf
 except ImportError:   # check.py re-executes itself under python3-vt, which has mpmath
     mpmath = None
+try:
+    import numpy as np
+    from scipy.special import gammaincc as sp_gammaincc
+except ImportError:
+    np = None
 
 RULE = ("requests are drawn from VERIF_SEED over a in (0,1e4], x in [0,a+40sqrt(a)+40] (dense at x=a+1 and a=100), "
         "all n<=172 for Factorial plus permuted call histories, binomial rows up to n=400, p in (1e-12,1-1e-12); "
@@ -33,7 +38,9 @@ CORR_ONLY = ["accuracy of the Lanczos approximation (GammaLn/Gamma vs mpmath.log
              "Binomial_Coefficient for n>170 (exp of GammaLn differences) vs the exact integer at 1e-10 relative"]
 ASSUMPTIONS = ["exp/log/sqrt/pow of libm approximate the real functions (the model takes them as parameters)",
                "classical: the power series and Legendre's continued fraction converge to P and Q (not formalised)"]
-TRUSTED = ["mpmath 1.3 at 50 digits (gamma, loggamma, gammainc, exp, log) as a validated-not-verified reference; "
+TRUSTED = ["scipy.special.gammaincc (double, ~1e-13 here) as the vectorised reference of the fine a>100 scan at 1e-3; the worst "
+           "point of every scan is re-evaluated with mpmath",
+           "mpmath 1.3 at 50 digits (gamma, loggamma, gammainc, exp, log) as a validated-not-verified reference; "
            "self-test in finalize: P+Q=1, P(x,a)-P(x,a+1)=x^a e^-x/Gamma(a+1), loggamma(n+1)=log n!"]
 
 DBL_MIN = 2.2250738585072014e-308
@@ -208,6 +215,18 @@ def generate(tier, seed, ctx):
         z = rng.choice([-0.48, 6.7, 8.84, 9.06]) + rng.uniform(-0.08, 0.08) if j % 3 else rng.uniform(-10.5, 10.5)
         x = max(1e-3, a + z * math.sqrt(a))
         R.append("%s %s %s" % (("c06.gammaq", "c06.gammap", "c06.qint", "c06.gammaq")[j % 4], hx(x), hx(a)))
+    # fine scan in r = (x-(a-1))/sqrt(a) for a > 100: an adaptive quadrature can agree with its refinement by coincidence in
+    # bands of r less than 1e-3 wide whose position drifts with a.  thorough: step 2e-4 over [-10,10]; quick: step 4e-4 over
+    # [-1.5,0.5] and [6,9.5] (where coincidences were seen), seed-dependent offset
+    scan_a = [150.0, 1000.0, 9999.0] + [10.0 ** rng.uniform(2.01, 4) for _ in range(3 if th else 2)]
+    step = 2e-4 if th else 4e-4
+    for a in scan_a:
+        for lo, hi in (((-10.0, 10.0),) if th else ((-1.5, 0.5), (6.0, 9.5))):
+            r = lo + rng.uniform(0, step)
+            while r < hi:
+                n = min(500, int((hi - r) / step) + 1)
+                R.append("c06.qscan %s %s %s %d" % (hx(a), hx(r), hx(step), n))
+                r += n * step
     # the switch-over x = a+1 probed exactly: dyadic a (a+1 exact), x = a+1 and its neighbours
     for _ in range(200 if th else 50):
         a = rng.randint(1, 100 * 64) / 64.0
@@ -358,6 +377,8 @@ def _key(op, a, model):
     if op == "c06.binom":
         n, k = int(a[0]), int(a[1])
         return (op, tag(model), min(max(n, -1), 401) // 10, (k > n) - (k < 0))
+    if op == "c06.qscan":
+        return (op, tag(model), int(math.log10(fl(a[0])) * 4), int(fl(a[1])))
     if op in ("c06.gammaln", "c06.gamma"):
         x = fl(a[0])
         return (op, tag(model), int(math.log10(x)) // 4 if x > 0 else -999)
@@ -492,6 +513,28 @@ def _check(op, a, ti, mt, ctx, rq):
             m = p if op == "c06.pser" else q
             if not ratio(ctx, op[4:] + " vs rational core + glue (B)", abs(mpf(v) - m), K_Q * EPSF * sc + mpf(5e-324)):
                 out.append(fail("corr", "%s differs from the model recurrence beyond rounding" % op[4:], "x=%r a=%r got %r model %s" % (x, s, v, mpmath.nstr(m, 20))))
+    elif op == "c06.qscan":
+        s, r0, dr, n = fl(a[0]), fl(a[1]), fl(a[2]), int(a[3])
+        if len(ti) != 2 * n:
+            out.append(fail("corr", "scan: wrong number of values", "%d vs %d" % (len(ti), 2 * n)))
+            return out
+        xs = np.array([fl(t) for t in ti[0::2]]); qs = np.array([fl(t) for t in ti[1::2]])
+        want = (s - 1.0) + (r0 + np.arange(n) * dr) * math.sqrt(s)
+        if np.max(np.abs(xs - want)) > 1e-9 * s:
+            out.append(fail("corr", "scan: abscissae are not the requested grid", ""))
+        ok = xs > 0
+        if np.any(np.isnan(qs[ok])) or np.any(qs[ok] < -TOL_A_LARGE) or np.any(qs[ok] > 1 + TOL_A_LARGE):
+            i = int(np.argmax(np.isnan(qs) | (qs < -TOL_A_LARGE) | (qs > 1 + TOL_A_LARGE)))
+            out.append(fail("prop", "GammaQ outside [0,1]", "x=%r a=%r got %r" % (float(xs[i]), s, float(qs[i]))))
+            return out
+        if np.any(ok):
+            err = np.where(ok, np.abs(qs - sp_gammaincc(s, np.where(ok, xs, 1.0))), 0.0)
+            i = int(np.argmax(err))
+            rf = ref_Q(Fraction(float(xs[i])), Fraction(s))          # the worst point again, with mpmath
+            if not ratio(ctx, "fine scan in (x-(a-1))/sqrt(a): GammaQ vs reference (a>100)", abs(mpf(float(qs[i])) - rf), TOL_A_LARGE):
+                out.append(fail("prop", A100_Q, "x=%r a=%r (r=%.5f) got %r ref %s; %d of %d scan points beyond 1e-3" % (
+                    float(xs[i]), s, (float(xs[i]) - (s - 1)) / math.sqrt(s), float(qs[i]), mpmath.nstr(rf, 17), int(np.sum(err > TOL_A_LARGE)), n)))
+            bump(ctx, "scan points (a>100)", int(np.sum(ok)))
     elif op in ("c06.gammaq", "c06.gammap", "c06.uplow"):
         x, s = fl(a[0]), fl(a[1])
         X, S = Fraction(x), Fraction(s)
